@@ -20,6 +20,14 @@ the bytes of the file are the two fields of `SameLayout`; every bound on an addr
 `WF m` (through the instance `sections_slice` and `WFacts.fileLen`), so nothing is assumed about
 the length of `file`.
 
+The geometry chain (`stream_bounds` … `readLod_eq`, `readLods_core`) uses the second field alone:
+it is proved in the namespace `HasSections` (`HasSections m file` = the sections of `m` lie at
+`dataStart m`; statements about `readLod file.toArray (fileHeader m) (modelData m)`, whatever the
+header stage returns on `file`), and the `SameLayout.…` lemmas are its instances through
+`SameLayout.geom`.  The first field is used only at the very end (`SameLayout.parse_core`).
+`Proofs/MdlRedundant.lean` combines the `HasSections` chain with files whose header records differ
+from `fileHeader m` / `modelData m` in fields the reader never looks at.
+
 The SoftFloat functions are never unfolded.  The internal statements are about the explicit rows
 `lodRowOf m i l` / `meshRowOf m i l d mesh`; `lods_row` / `meshes_row` / `decls_row` identify them
 with the entries of `(modelData m).lods` / `.meshes` / `.decls`.
